@@ -1,6 +1,7 @@
 import ErbiumModel.Lemmas.DhcpWire
 import ErbiumModel.Lemmas.DhcpDecoded
 import ErbiumModel.Lemmas.Frame
+import ErbiumModel.Lemmas.FrameValid
 import ErbiumModel.Generated.Dhcp
 import ErbiumModel.Lemmas.Enum
 /-! # C12 — DHCP replies on the wire are valid frames decoding to the computed reply
@@ -72,6 +73,14 @@ theorem C12_ip_checksum (u : Frame.Udp4) (h : Frame.WfU u) :
 theorem C12_udp_checksum (u : Frame.Udp4) (h : Frame.WfU u) :
     Frame.fold (Frame.sumWords (Frame.pseudo u ++ Frame.udpHeader u ++ u.payload)) = 0xffff :=
   Frame.udp_checksum_verifies u h
+
+/-- (b') **valid_frame(build(..)) for every input**: the RFC 791/768 reader of `Spec/FrameRfc.lean` —
+    the same function the correspondence check applies to the frames the *implementation* builds —
+    accepts the model's frame and reads back exactly the addresses, ports, MACs and payload it was
+    built from, with both checksums verifying, for every payload up to 65507 octets. -/
+theorem C12_frame_valid (u : Frame.Udp4) (h : Frame.WfU u) :
+    Spec.FrameRfc.validFrame u (Frame.frame u) = none :=
+  Frame.frame_valid u h
 
 /-- (c) **Broadcast bit**: for all 65536 flag values the test is the most significant bit. -/
 theorem C12_broadcast_iff_msb : ∀ f : Fin 65536, broadcastFlag f.val = decide (f.val ≥ 0x8000) := by
